@@ -44,9 +44,8 @@ impl ForNextCounterMatch {
                 ExpressionType::BuiltIn(_) => Ok(()),
                 _ => Err(LintError::TypeMismatch.at_pos(*pos)),
             },
-            _ => panic!(
-                "It should not be possible for the FOR variable to be something other than a variable"
-            ),
+            // e.g. an array element
+            _ => Err(LintError::VariableRequired.at_pos(*pos)),
         }
     }
 
@@ -68,9 +67,11 @@ impl ForNextCounterMatch {
                             Err(LintError::NextWithoutFor.at(pos))
                         }
                     }
-                    _ => unimplemented!(),
+                    // NEXT followed by something that is not a plain variable
+                    _ => Err(LintError::NextWithoutFor.at(pos)),
                 },
-                _ => unimplemented!(),
+                // already rejected by ensure_numeric_variable
+                _ => Err(LintError::VariableRequired.at(&f.variable_name)),
             }
         } else {
             // does not have a NEXT variable
